@@ -14,7 +14,7 @@ RULE = ('generated programs (sparse maps via .org / zones, lines longer than a l
         'non-trivial = assembled with >= 2 byte lines and a gap or a muted line or a line longer than 6 bytes')
 EXPLANATION = ('Theorems in Props/C16.lean: decoders invert the reference encoders (Intel HEX records incl. checksum and 64K '
                'extension, compact hex under EveryGapHasOrg, listing rows), muted lines absent. Correspondence: decoded real '
-               'output vs the image map. KNOWN-FINDING minhex-gap-without-org is reported where its class predicate holds.')
+               'output vs the image map; two address windows (-s inside a statement, -e) of the image against the same map. KNOWN-FINDING minhex-gap-without-org is reported where its class predicate holds.')
 ASSUMPTIONS = ['the third-party intelhex writer is not modelled; its output is only decoded',
                'listing instruction/comment columns are ignored (only line/address/bytes columns are decoded)']
 FORMATS = ['intel_hex', 'hex', 'minhex', 'listing']
@@ -67,8 +67,29 @@ def gen_case(rng, tier):
     return {'cfg': cfg, 'files': [stmts], 'seed': rng.randrange(1 << 30)}
 
 
+def add_windows(cases):
+    """Two address windows per case.  A window starts preferably strictly inside a statement whose bytes differ from one
+    another (found in the model's placement of the program) and ends inside the map or behind it."""
+    res = leanio.run_driver([to_model(c) for c in cases])
+    for c, mr in zip(cases, res):
+        c['windows'] = []
+        if not mr.get('lines') or 'err' in mr:
+            continue
+        rng = random.Random(c['seed'])
+        lines = [l for l in mr['lines'] if l['isByte'] and l['bytes'] and not l['muted']]
+        if not lines:
+            continue
+        inner = [l['addr'] + k for l in lines for k in range(1, len(l['bytes'])) if l['bytes'][k - 1] != l['bytes'][k]]
+        hi = max(l['addr'] + len(l['bytes']) for l in lines)
+        for _ in range(2):
+            s = rng.choice(inner) if inner and rng.random() < 0.7 else rng.choice([0, hi, rng.randint(0, hi)])
+            e = rng.choice([None, None, rng.randint(s, hi + 3)])
+            c['windows'].append([s, e, rng.choice([0, 0x5A, 255])])
+    return cases
+
+
 def generate(rng, tier):
-    return [gen_case(rng, tier) for _ in range(220 if tier == 'quick' else 5000)]
+    return add_windows([gen_case(rng, tier) for _ in range(220 if tier == 'quick' else 5000)])
 
 
 def to_impl(case):
@@ -77,6 +98,9 @@ def to_impl(case):
     out = [impl.compile_case(isa, files, fill=0), impl.compile_case(isa, files, fill=255)]
     for f in FORMATS:
         out.append(impl.compile_case(isa, files, pretty=f))
+    # the image of an address window (-s / -e): the same memory contents again, cut to the window
+    for s_, e_, fill in case.get('windows', []):
+        out.append(impl.compile_case(isa, files, start=s_, end=e_, fill=fill))
     return out
 
 
@@ -136,6 +160,19 @@ def judge(case, irs, mr):
             diff = sorted(set(m.items()) ^ set(real_map.items()))[:8]
             return {'verdict': Verdict.VIOLATION, 'tags': tags,
                     'detail': f'{f} describes different memory contents than the image (first differences {diff}); text={t[:400]!r}; ' + det}
+    # the image of an address window holds the same bytes at the same addresses
+    for r, (s_, e_, fill) in zip(irs[6:], case.get('windows', [])):
+        if r['status'] != 'ok':
+            return {'verdict': Verdict.VIOLATION, 'tags': tags,
+                    'detail': f'-s {s_} -e {e_} failed although the whole image was written: {str(r.get("msg"))[:200]}; ' + det}
+        last = e_ if e_ is not None else (max(real_map) if real_map else -1)
+        want_img = bytes(real_map.get(a, fill) for a in range(s_, last + 1))
+        got_img = impl.fbytes(r, 'out.bin')
+        tags.append('window:' + ('inside-statement' if any(l['addr'] < s_ < l['addr'] + len(l['bytes']) for l in unmuted) else 'other'))
+        if got_img != want_img:
+            return {'verdict': Verdict.VIOLATION, 'tags': tags,
+                    'detail': f'the image written with -s {s_} -e {e_} -f {fill} holds {got_img.hex()[:80]} where the whole image '
+                              f'and every other format hold {want_img.hex()[:80]}; ' + det}
     # listing rows vs assembled statements
     rows = dec[3].get('rows', [])
     got = sorted((r['addr'], tuple(r['bytes'])) for r in rows if r['bytes'])
